@@ -13,7 +13,7 @@ a subclass; tools/py2coq.py is not modified):
   effect_stmts={"<python statement text>": (tag, [argument expression texts])}
       that statement (a dict store / del / popitem, a method call with a None argument) is appended
       to the effects list as (tag, [translated args]).
-  stmt_path="body[1].body[1].body"
+  body_path="body[1].body[1].body"
       translate that statement list (a loop body) as if it were the function body.
 
 Anything else in those methods that is not in the supported subset makes the generator emit a file
@@ -55,7 +55,7 @@ SPECS = [
          types={"evse.ev": "optZ", "evse.ev.fully_charged": "bool"},
          expr_path="body[1].body[0].value.generators[0].ifs[0]"),
     dict(name="SN_post_body", file=SN, qual="StochasticNetwork.post_charging_update", kind="skel",
-         stmt_path="body[1].body[1].body",
+         body_path="body[1].body[1].body",
          types={"ev.station_id": "num", "ev.session_id": "num"},
          call_params={"len": ("queue_len", "num")},
          effects=["self.unplug"]),
@@ -75,10 +75,10 @@ class Skel(py2coq.FnTranslator):
         super().__init__(repo, spec, domain)
         self.opaque = spec.get("opaque", {})
         self.effect_stmts = spec.get("effect_stmts", {})
-        if "stmt_path" in spec:
-            stmts = py2coq.resolve_path(self.fn, spec["stmt_path"], self.where)
+        if "body_path" in spec:
+            stmts = py2coq.resolve_path(self.fn, spec["body_path"], self.where)
             if not isinstance(stmts, list) or not all(isinstance(s, ast.stmt) for s in stmts):
-                raise py2coq.Untranslatable("%s: %s is not a statement list" % (self.where, spec["stmt_path"]))
+                raise py2coq.Untranslatable("%s: %s is not a statement list" % (self.where, spec["body_path"]))
             fn = copy.copy(self.fn)
             fn.body = stmts
             self.fn = fn
@@ -91,14 +91,18 @@ class Skel(py2coq.FnTranslator):
             return (name, ty)
         return super().expr(node, env)
 
-    def _is_effect_stmt(self, s):
+    def _is_skel_effect_stmt(self, s):
         return isinstance(s, ast.stmt) and self.txt(s) in self.effect_stmts
+
+    def _is_effect_stmt(self, n):
+        # the base translator's notion (calls listed in spec["effects"]) or ours
+        return self._is_skel_effect_stmt(n) or super()._is_effect_stmt(n)
 
     def assigned(self, stmts):
         out = []
 
         def visit(s):
-            if self._is_effect_stmt(s):
+            if self._is_skel_effect_stmt(s):
                 return
             tgt = None
             if isinstance(s, ast.Assign):
@@ -119,7 +123,7 @@ class Skel(py2coq.FnTranslator):
         return out
 
     def block(self, stmts, env, rest):
-        if stmts and self._is_effect_stmt(stmts[0]):
+        if stmts and self._is_skel_effect_stmt(stmts[0]):
             s, tail = stmts[0], stmts[1:]
             tag, argtexts = self.effect_stmts[self.txt(s)]
             args = []
@@ -136,7 +140,7 @@ class Skel(py2coq.FnTranslator):
                 name, cur, tag, "; ".join(args), self.block(tail, env2, rest))
         if stmts and isinstance(stmts[0], ast.If) and self.has_effects and "$effects" not in env:
             # make sure effects emitted by effect_stmts inside a non-exiting `if` are merged
-            if any(self._is_effect_stmt(n) for st in stmts[0].body + stmts[0].orelse for n in ast.walk(st)):
+            if any(self._is_skel_effect_stmt(n) for st in stmts[0].body + stmts[0].orelse for n in ast.walk(st)):
                 env = dict(env)
                 env["$effects"] = ("[]", "effects")
         return super().block(stmts, env, rest)
@@ -155,8 +159,8 @@ def _translate(repo, spec):
     text, info = t.translate()
     if "expr_path" in spec:
         where = spec["qual"] + " @ " + spec["expr_path"]
-    elif "stmt_path" in spec:
-        where = spec["qual"] + " @ " + spec["stmt_path"]
+    elif "body_path" in spec:
+        where = spec["qual"] + " @ " + spec["body_path"]
     else:
         where = spec["qual"]
     return "(* %s :: %s  (lines %d-%d) *)\n%s\n" % (spec["file"], where, info["line"], info["end_line"], text), info
